@@ -63,6 +63,11 @@ class MultiIndexConverter(Transformer):
         # Restore original MultiIndexes
         for dim, original_index in reference_indexes.items():
             if dim in X_inverse_transformed.dims:
+                # The data may hold a subset of the original positions only
+                # (e.g. samples that were entirely NaN have been dropped)
+                original_index = original_index.isel(
+                    {dim: X_inverse_transformed.coords[dim].values}
+                )
                 X_inverse_transformed.coords[dim] = original_index
                 # Set indexes to original MultiIndexes
                 indexes = [idx for idx in original_index.indexes.keys() if idx != dim]
